@@ -27,6 +27,48 @@ def _is_fresh_value(v):
     return False
 
 
+def check_naming(ctx, rule):
+    """Connection names come from one counter: drawn once per opened connection, never reused (also used by C14)."""
+    repo = ctx.repo
+    f_open = repo.func('ConnectionManager.open_connection')
+    opaths = paths_of(repo, f_open, asserts='ignore')
+    ci_init = repo.func('ConnectionImpl.__init__')
+    nn = 0
+    for p in opaths:
+        if p.outcome[0] == 'raise':
+            continue
+        nxt = [e for e in p.events if e.kind == 'call' and e.ftext == 'self.connection_name_generator.next']
+        ctx.check(len(nxt) == 1, rule, 'open:one-name', f_open.loc(), 'exactly one name is drawn per opened connection',
+                  '%d names are drawn on path %s' % (len(nxt), p.describe()[:120]))
+        for e in p.events:
+            if e.kind == 'call' and e.site is not None and e.site.kind == 'ctor' and e.site.ext.qual == CI:
+                nn += 1
+                ctx.check(norm(arg_by_name(e, ci_init, 'name')) == 'self.connection_name_generator.next()', rule, 'open:name-from-generator',
+                          f_open.loc(e.node), 'the connection is named by the generator', 'connection name is %s' % norm(arg_by_name(e, ci_init, 'name'))[:80])
+                ctx.check(norm(arg_by_name(e, ci_init, 'time')) == 'time' and norm(arg_by_name(e, ci_init, 'is_server')) == 'is_server',
+                          rule, 'open:args', f_open.loc(e.node), 'time and role are passed through unmodified')
+    ctx.floor(rule, nn, 1, 'ConnectionImpl construction in open_connection')
+    LG = 'core.letter_id_generator.LetterIdGenerator'
+    check_writers(ctx, rule, LG, 'index', [('LetterIdGenerator.__init__', lambda w: w.fresh and isinstance(w.stmt.value, ast.Constant) and w.stmt.value.value == 0),
+                                               ('LetterIdGenerator.next', lambda w: w.kind == 'aug' and isinstance(w.stmt.op, ast.Add)
+                                                and isinstance(w.stmt.value, ast.Constant) and w.stmt.value.value == 1)], floor=2)
+    f_next = repo.func('LetterIdGenerator.next')
+    for p in paths_of(repo, f_next):
+        aug = [e for e in p.events if e.kind == 'store' and e.target == 'self.index']
+        rv = p.outcome[1] if p.outcome[0] == 'return' else None
+        good = False
+        if isinstance(rv, ast.Call) and norm(rv.func) == 'number_to_letter_id' and len(rv.args) == 2 and len(aug) == 1:
+            a0 = rv.args[0]
+            good = norm(a0) == 'self.index' and getattr(a0, '_ep', 99) < aug[0].ep and norm(rv.args[1]) == 'True'
+        ctx.check(good, rule, 'next:pre-increment', f_next.loc(), 'next() converts the value read before the increment, with capitals',
+                  'next() returns %s' % norm(rv)[:80])
+    f_name = repo.func('ConnectionImpl.name')
+    for p in paths_of(repo, f_name):
+        ctx.check(p.outcome[0] == 'return' and norm(p.outcome[1]) == 'self._name', rule, 'name:returns-stored', f_name.loc(), 'name() returns the stored name')
+    check_writers(ctx, rule, CI, '_name', [('ConnectionImpl.__init__', lambda w: w.fresh and norm(w.stmt.value) == 'name')], floor=1)
+
+
+
 def run(ctx):
     repo = ctx.repo
     cg = repo.callgraph()
@@ -117,41 +159,7 @@ def run(ctx):
     ctx.check(all(any(e.kind == 'call' and e.ftext and e.ftext.endswith('.message') for e in p.events) for p in mpaths if p.outcome[0] != 'raise'),
               'C04.2', 'route:always', f_msg.loc(), 'every normal path forwards the message')
 
-    # ---- C04.3 naming -----------------------------------------------------------------------------------
-    ci_init = repo.func('ConnectionImpl.__init__')
-    nn = 0
-    for p in opaths:
-        if p.outcome[0] == 'raise':
-            continue
-        nxt = [e for e in p.events if e.kind == 'call' and e.ftext == 'self.connection_name_generator.next']
-        ctx.check(len(nxt) == 1, 'C04.3', 'open:one-name', f_open.loc(), 'exactly one name is drawn per opened connection',
-                  '%d names are drawn on path %s' % (len(nxt), p.describe()[:120]))
-        for e in p.events:
-            if e.kind == 'call' and e.site is not None and e.site.kind == 'ctor' and e.site.ext.qual == CI:
-                nn += 1
-                ctx.check(norm(arg_by_name(e, ci_init, 'name')) == 'self.connection_name_generator.next()', 'C04.3', 'open:name-from-generator',
-                          f_open.loc(e.node), 'the connection is named by the generator', 'connection name is %s' % norm(arg_by_name(e, ci_init, 'name'))[:80])
-                ctx.check(norm(arg_by_name(e, ci_init, 'time')) == 'time' and norm(arg_by_name(e, ci_init, 'is_server')) == 'is_server',
-                          'C04.3', 'open:args', f_open.loc(e.node), 'time and role are passed through unmodified')
-    ctx.floor('C04.3', nn, 1, 'ConnectionImpl construction in open_connection')
-    LG = 'core.letter_id_generator.LetterIdGenerator'
-    check_writers(ctx, 'C04.3', LG, 'index', [('LetterIdGenerator.__init__', lambda w: w.fresh and isinstance(w.stmt.value, ast.Constant) and w.stmt.value.value == 0),
-                                               ('LetterIdGenerator.next', lambda w: w.kind == 'aug' and isinstance(w.stmt.op, ast.Add)
-                                                and isinstance(w.stmt.value, ast.Constant) and w.stmt.value.value == 1)], floor=2)
-    f_next = repo.func('LetterIdGenerator.next')
-    for p in paths_of(repo, f_next):
-        aug = [e for e in p.events if e.kind == 'store' and e.target == 'self.index']
-        rv = p.outcome[1] if p.outcome[0] == 'return' else None
-        good = False
-        if isinstance(rv, ast.Call) and norm(rv.func) == 'number_to_letter_id' and len(rv.args) == 2 and len(aug) == 1:
-            a0 = rv.args[0]
-            good = norm(a0) == 'self.index' and getattr(a0, '_ep', 99) < aug[0].ep and norm(rv.args[1]) == 'True'
-        ctx.check(good, 'C04.3', 'next:pre-increment', f_next.loc(), 'next() converts the value read before the increment, with capitals',
-                  'next() returns %s' % norm(rv)[:80])
-    f_name = repo.func('ConnectionImpl.name')
-    for p in paths_of(repo, f_name):
-        ctx.check(p.outcome[0] == 'return' and norm(p.outcome[1]) == 'self._name', 'C04.3', 'name:returns-stored', f_name.loc(), 'name() returns the stored name')
-    check_writers(ctx, 'C04.3', CI, '_name', [('ConnectionImpl.__init__', lambda w: w.fresh and norm(w.stmt.value) == 'name')], floor=1)
+    check_naming(ctx, 'C04.3')
 
     # ---- C04.4 reopen = new connection -------------------------------------------------------------------
     for p in opaths:
